@@ -3,6 +3,8 @@ package config
 var vrfEntries = map[string]func(){
 	"VrfC15Identity":    VrfC15Identity,
 	"VrfC15IdentityEnv": VrfC15IdentityEnv,
+	"VrfC15Manager":     VrfC15Manager,
+	"VrfC15ManagerDoc":  VrfC15ManagerDoc,
 }
 
 // two real identities (ed25519): peer ID and the stored form of the private key
